@@ -529,7 +529,8 @@ impl BufRead for SignatureManyReader<'_> {
                 buffer.advance(amt);
             }
             Self::Done { .. } => {}
-            Self::Error => panic!("SignatureOnePassManyReader errored"),
+            // `consume` after an error must not panic (the reader keeps returning `Err`)
+            Self::Error => {}
         }
     }
 }
